@@ -1046,7 +1046,13 @@ def _concretize_idx(M, v, L):
     return k if k <= L else L + 1
 @reg(r'^core::str::<impl str>::get$')
 def _str_get(M, fr, n, a):
-    s = as_str(M, a[0]); rng = a[1]; lo, hi = simp(rng.f[0]), simp(rng.f[1])
+    s = as_str(M, a[0]); rng = a[1]
+    kind = re.sub(r'<.*', '', rng.name).split('::')[-1] if isinstance(rng, Agg) else 'Range'
+    if kind == 'RangeTo': lo, hi = 0, simp(rng.f[0])
+    elif kind == 'RangeFrom': lo, hi = simp(rng.f[0]), len(s.b)
+    elif kind == 'RangeFull': lo, hi = 0, len(s.b)
+    elif kind in ('RangeInclusive', 'RangeToInclusive'): raise Unsupported('str::get with an inclusive range')
+    else: lo, hi = simp(rng.f[0]), simp(rng.f[1])
     lo = _concretize_idx(M, lo, len(s.b)); hi = _concretize_idx(M, hi, len(s.b))
     if lo > hi or hi > len(s.b): return none()
     for p in (lo, hi):
